@@ -43,6 +43,9 @@ const (
 	extDat           = ".dat"
 	dateTimeFormat   = "20060102.15:04:05.000"
 	dateFormat       = "20060102"
+	// maxRecentFiles bounds the number of history files considered by
+	// ReadStatusRecent.
+	maxRecentFiles = 1 << 20
 )
 
 // JSONDB manages DAGs status files in local storage.
@@ -122,13 +125,25 @@ func (s *JSONDB) newWriter(dagFile string, t time.Time, requestID string) (*writ
 
 func (s *JSONDB) ReadStatusRecent(dagFile string, n int) []*model.StatusFile {
 	var ret []*model.StatusFile
-	files := s.latest(s.globPattern(dagFile), n)
+	// A run killed while its history file was being compacted leaves both the
+	// original and the compacted file: list such a run only once.
+	seen := make(map[string]bool)
+	files := s.latest(s.globPattern(dagFile), maxRecentFiles)
 	for _, file := range files {
+		if len(ret) >= n {
+			break
+		}
 		status, err := s.cache.LoadLatest(file, func() (*model.Status, error) {
 			return ParseFile(file)
 		})
 		if err != nil {
 			continue
+		}
+		if status.RequestID != "" {
+			if seen[status.RequestID] {
+				continue
+			}
+			seen[status.RequestID] = true
 		}
 		ret = append(ret, &model.StatusFile{
 			File:   file,
